@@ -7,6 +7,9 @@
    call values: boundary-biased family (vlib/c07_pay.py value_family), not just 0/1.
 4. Payability guard: Coq templates of the emitted entry checks (C07/PayGuard.v; C07_nonpayable_refuses_any_value in
    C07/PropsPay.v) matched syntactically against the IR of the six real selector-section generators (vlib/c07_pay.py).
+5. Mutability: every entry point (incl. __default__, constructor) draws its decorator from payable / nonpayable / none /
+   view / pure; expected payability comes from the decorator TEXT (c07_gen.deco_payable / check_source_payability) and,
+   for the __default__ / constructor template, from C07/Mutability.v mut_payable (theorems in C07/PropsMut.v).
 """
 import itertools
 import time
@@ -30,7 +33,13 @@ META = {
             "(PayGuard.v) proved to refuse EVERY non-zero call value for a non-payable entry before the body "
             "(C07_nonpayable_refuses_any_value) and to equal the entry checks of the dispatcher models; the templates are "
             "matched syntactically, on every run, against the IR the six real selector-section generators emit for every "
-            "entry point (and the dense function-info metadata against `metadata e`).",
+            "entry point (and the dense function-info metadata against `metadata e`). Every entry point of the generated "
+            "contracts, __default__ included, carries a mutability decorator drawn from payable / nonpayable / none / view / "
+            "pure (the constructor: payable / nonpayable / none); its expected payability is read from the decorator text of "
+            "the generated source (only @payable accepts value) and the __default__ / constructor guard template is "
+            "instantiated by decorator in Coq (Mutability.v mut_payable; C07_default_guard_refuses_unless_payable, "
+            "C07_unmatched_call_with_value_reverts: @view and @pure are non-payable); every unmatched-call path (empty, 1-3 "
+            "bytes, unknown selector, truncated real selector) is probed with the call-value family in all six strategies.",
     "level_note": "Trusted: Coq kernel + vm_compute; c07_jt2coq translator (4 kernels; bridged + diffed against CPython); "
                   "hand models of the two generate_* loops and of the dispatchers are tied by correspondence, not translation "
                   "(their entry checks: syntactically, via the guard templates; extractor tools/vlib/c07_pay.py is trusted to "
@@ -48,9 +57,11 @@ PROOF_FILES = ["C07/JumptableProofs.v", "C07/DispatchProofs.v", "C07/DenseProofs
 TTIE_FILES = ["C07/JtSupport.v", "C07/GenJumptable.v", "C07/Bridge.v", "C07/PropsSrc.v"]
 # payability guard: templates of the emitted entry checks (model), theorems (nonpayable_refuses_any_value), tied
 # syntactically to the IR of the six real selector-section generators by vlib/c07_pay.py
-PAY_MODEL_FILES = ["C07/PayGuard.v"]
-PAY_PROOF_FILES = ["C07/PayGuardProofs.v", "C07/PropsPay.v"]
-PAY_IMPORTS = "From Verif Require Import Base.Word256 C07.Jumptable C07.Dispatch C07.PayGuard.\n"
+# Mutability.v: decorator (payable / nonpayable / view / pure) -> payability; the __default__ / constructor template is
+# instantiated through it (a @view / @pure arm is a NON-payable arm); theorems in PropsMut.v
+PAY_MODEL_FILES = ["C07/PayGuard.v", "C07/Mutability.v"]
+PAY_PROOF_FILES = ["C07/PayGuardProofs.v", "C07/PropsPay.v", "C07/MutabilityProofs.v", "C07/PropsMut.v"]
+PAY_IMPORTS = "From Verif Require Import Base.Word256 C07.Jumptable C07.Dispatch C07.PayGuard C07.Mutability.\n"
 
 ERR = {"_HasEmptyBuckets": 1, "_FindMagicFailure": 2, "RuntimeError": 3, "ZeroDivisionError": 4, "ValueError": 6}
 
@@ -336,14 +347,29 @@ def part_dispatch(ctx, model_ok, tie=None):
         sizes = list(range(0, 13)) + [15, 20, 25, 33, 40, 50, 64, 64, 70]
     cfgs = strategy_configs(ctx.tier)
     contracts = []
+    # mutability of every entry point incl. __default__ is drawn from payable / nonpayable / undecorated / view / pure
+    # (the constructor: payable / nonpayable / undecorated); expected payability = G.deco_payable(decorator text)
+    mrnd = ctx.rng("mutability")
     for n in sizes:
         fns = G.build_functions(rnd, n, pools)
         fb = rnd.choice([None, False, True]) if n else rnd.choice([False, True])
+        if fb is not None:
+            fb = G.Fallback("payable" if fb else mrnd.choice(["nonpayable", "", "view", "pure"]))
         contracts.append((fns, fb))
-    # also: the same function set with each fallback kind, small
+    # also: the same function set (5 functions: sparse / dense in both generators, linear at -O none) without and
+    # with __default__ of EVERY mutability
     fns = G.build_functions(rnd, 5, pools)
-    for fb in (None, False, True):
+    for fb in (None, G.Fallback(mrnd.choice(["nonpayable", ""])), G.Fallback("payable"), G.Fallback("view"), G.Fallback("pure")):
         contracts.append((fns, fb))
+    # no other entry point at all / fewer than the linear threshold: __default__ view and pure
+    small = [G.Fallback("view"), G.Fallback("pure")]
+    mrnd.shuffle(small)
+    contracts.append(([], small[0]))
+    contracts.append((G.build_functions(rnd, 2, pools), small[1]))
+    ctors = [mrnd.choice([None, None] + list(G.CTOR_MUTS)) for _ in contracts]
+    for want in G.CTOR_MUTS:       # every legal constructor mutability occurs
+        if want not in ctors:
+            ctors[mrnd.randrange(len(ctors))] = want
 
     # --- expected outcomes from the Coq specification
     exprs, metas = [], []
@@ -405,11 +431,17 @@ def part_dispatch(ctx, model_ok, tie=None):
     found = False
     si = 0
     t0 = time.time()
+    fbcov = {}
     for ci, (fns, fb) in enumerate(contracts):
-        src = G.source(fns, fb)
+        src = G.source(fns, fb, ctors[ci])
         _ci, es, calls = metas[ci]
         exp = spec_out[ci]
         assert len(exp) == len(calls)
+        bad = G.check_source_payability(src, es, fb, ctors[ci])
+        if bad:
+            ctx.violation("gate", "harness: expected payability differs from the decorator text of the generated source",
+                          {"problem": bad, "source": src})
+            return n_calls, found
         for cfg in cfgs:
             exp_strat = strat_out[si]
             si += 1
@@ -420,7 +452,7 @@ def part_dispatch(ctx, model_ok, tie=None):
                 ctx.violation("correspondence-broken", f"generated contract does not compile under {cfg.name}: {type(e).__name__}: {e}",
                               {"source": src, "config": cfg.name})
                 return n_calls, found
-            collect_tie(tie, gspy, cfg, es, fb, src)
+            collect_tie(tie, gspy, cfg, es, fb, src, ctors[ci])
             if len(spy.calls) != 1 or spy.calls[0][0] != cfg.venom:
                 ctx.violation("correspondence-broken", "expected exactly one selector-section generator call of the configured pipeline",
                               {"config": cfg.name, "calls": spy.calls})
@@ -437,6 +469,23 @@ def part_dispatch(ctx, model_ok, tie=None):
             if addr is None:
                 ctx.violation("correspondence-broken", "deployment failed", {"source": src, "config": cfg.name})
                 return n_calls, found
+            if ctors[ci] is not None:
+                # the constructor is an entry point too: creation carrying value succeeds iff it is @payable
+                for v in (1, 2, 10**18):
+                    ch2 = evm.Chain(cfg.evm)
+                    a2 = ch2.deploy(bytes.fromhex(out["bytecode"][2:]), value=v)
+                    n_calls += 1
+                    if (a2 is not None) != G.deco_payable(ctors[ci]):
+                        found = True
+                        ctx.violation(
+                            "failing-input", "constructor payability: creation with value does not follow the decorator of __init__",
+                            {"source": src, "config": cfg.name, "creation_value": v, "constructor_decorator": "@" + (ctors[ci] or "<none>"),
+                             "expected": "created" if G.deco_payable(ctors[ci]) else "creation reverts",
+                             "observed": "created" if a2 is not None else "creation reverts"},
+                            key=f"ctor-payability:{'venom' if cfg.venom else 'legacy'}")
+                        break
+                if found:
+                    break
             for c, e in zip(calls, exp):
                 prefix, length, value = c
                 data = G.calldata_for(prefix, length)
@@ -452,9 +501,13 @@ def part_dispatch(ctx, model_ok, tie=None):
                     vdist[(sname, "even" if value % 2 == 0 else "odd")] = vdist.get((sname, "even" if value % 2 == 0 else "odd"), 0) + 1
                 if e == 0:
                     want, ok = ("revert",), o == ("revert",)
+                    if fb is not None and value and (len(prefix) < 4 or all(x[0] != int.from_bytes(prefix, "big") for x in es)):
+                        fbcov[(sname, fb.mut)] = fbcov.get((sname, fb.mut), 0) + 1
                 elif e == 1:
-                    want = ("default", G.expected_default_log(data, value, bool(fb), evm.DEPLOYER))
+                    want = G.expected_default(data, value, fb, evm.DEPLOYER)
                     ok = o == want
+                    if value:
+                        fbcov[(sname, fb.mut)] = fbcov.get((sname, fb.mut), 0) + 1
                 else:
                     tgt = es[e - 2]
                     want = ("enter", G.expected_output(fns, tgt[3]))
@@ -469,7 +522,9 @@ def part_dispatch(ctx, model_ok, tie=None):
                         {"source": src, "config": cfg.name, "strategy": sname, "calldata": data.hex(), "value": value,
                          "expected": [want[0]] + ([tgt[4], want[1].hex()] if e >= 2 else [w.hex() for w in want[1:]]),
                          "observed": [o[0]] + ([x.hex() if isinstance(x, bytes) else x for x in o[1:]]),
-                         "entry_points": [[hex(x[0]), x[4], "payable" if x[1] else "nonpayable", x[2]] for x in es]},
+                         "entry_points": [[hex(x[0]), x[4], "payable" if x[1] else "nonpayable", x[2]] for x in es],
+                         "default_decorator": None if fb is None else "@" + (fb.mut or "<none>"),
+                         "expected_payability": "from the decorator text of the source: only @payable accepts value"},
                         key=f"dispatch:{sname}:{kind}")
                     break
             if found:
@@ -481,6 +536,16 @@ def part_dispatch(ctx, model_ok, tie=None):
     ctx.corr["dispatch_value_family_calls_per_config"] = n_value_calls
     ctx.corr["dispatch_calls_value_gt_1"] = {f"{k[0]}/{k[1]}": v for k, v in sorted(vdist.items())}
     ctx.corr["contracts"] = len(contracts)
+    ctx.corr["unmatched_calls_with_value_by_strategy_and_default_decorator"] = {
+        f"{k[0]}/@{k[1] or 'undecorated'}": v for k, v in sorted(fbcov.items())}
+    ctx.corr["constructor_decorators"] = sorted({"@" + (c or "undecorated") for c in ctors if c is not None})
+    if not found:
+        # coverage gate: a non-payable-by-omission (@view, @pure) __default__ must have been probed with value on
+        # every unmatched-call path family in all six strategies
+        miss = [f"{g}-{st}/@{m}" for g in ("legacy", "venom") for st in ("linear", "sparse", "dense") for m in ("view", "pure")
+                if fbcov.get((f"{g}-{st}", m), 0) < 10]
+        if miss:
+            ctx.violation("gate", "harness: @view/@pure __default__ not probed with value in every dispatcher strategy", {"missing": miss})
     ctx.corr["configs"] = [c.name for c in cfgs]
     ctx.corr["evm_seconds"] = round(time.time() - t0, 1)
     if contracts and metas:
@@ -490,11 +555,11 @@ def part_dispatch(ctx, model_ok, tie=None):
     return len(distinct), found
 
 
-def collect_tie(tie, gspy, cfg, es, fb, src):
+def collect_tie(tie, gspy, cfg, es, fb, src, ctor=None):
     """Guard arms of every entry point of one compilation -> tie items (evaluated in Coq by part_guard_tie)."""
     where = {"config": cfg.name, "source": src}
     try:
-        tie += P.tie_items(gspy, cfg.venom, es, fb, where)
+        tie += P.tie_items(gspy, cfg.venom, es, fb, where, ctor)
     except Exception as e:  # noqa  (fail closed: an arm that cannot be extracted is a broken tie)
         tie.append((None, dict(where, error=f"{type(e).__name__}: {e}")))
 
@@ -523,7 +588,14 @@ def part_guard_tie(ctx, tie, guard_model_ok, found):
         return 0
     elif uniq:
         xs = list(uniq)
-        outs = coqrun.eval_zlists(PAY_IMPORTS, xs, "c07tie", shard=max(1, len(xs)), timeout=300)
+        # decorator code -> payability of the Coq model (mut_payable) must be the harness' reading of the decorator text
+        codes = sorted(set(P.MUT_CODE.values()))
+        outs = coqrun.eval_zlists(PAY_IMPORTS, xs + [f"payable_codes {coqrun.zlist(codes)}"], "c07tie", shard=max(1, len(xs) + 1), timeout=300)
+        want = [1 if any(G.deco_payable(m) for m, c in P.MUT_CODE.items() if c == code) else 0 for code in codes]
+        if outs[-1] != want or any(len({G.deco_payable(m) for m, c in P.MUT_CODE.items() if c == code}) != 1 for code in codes):
+            ctx.violation("gate", "harness: payability by decorator differs between Mutability.v (mut_payable) and c07_gen.deco_payable",
+                          {"codes": codes, "coq": outs[-1], "harness": want})
+        outs = outs[:-1]
         for x, o in zip(xs, outs):
             if o != [1]:
                 d = dict(uniq[x])
@@ -599,6 +671,7 @@ def part_entry_points(ctx, tie=None):
         cfgs += [C(True, "O3", "prague"), C(True, "gas", "paris"), C(False, "gas", "paris", debug=True)]
     n = ntrunc = 0
     shapes = set()
+    mutcov = set()
     for src, chunk, base in E.contracts(fns):
         for cfg in cfgs:
             try:
@@ -608,8 +681,13 @@ def part_entry_points(ctx, tie=None):
                 ctx.violation("correspondence-broken", f"entry-point family contract does not compile under {cfg.name}: "
                               f"{type(e).__name__}: {e}", {"source": src, "config": cfg.name})
                 return n
-            es = [(method_id_int(sig), False, E.head_size(types, vals), (j, k), sig)
+            es = [(method_id_int(sig), f.payable, E.head_size(types, vals), (j, k), sig)
                   for j, f in enumerate(chunk) for k, (sig, types, vals, _e) in enumerate(f.variants())]
+            bad = G.check_source_payability(src, es, None)
+            if bad:
+                ctx.violation("gate", "harness: expected payability differs from the decorator text of the generated source",
+                              {"problem": bad, "source": src})
+                return n
             collect_tie(tie, gspy, cfg, es, None, src)
             ch = evm.Chain(cfg.evm)
             addr = ch.deploy(bytes.fromhex(out["bytecode"][2:]))
@@ -634,18 +712,23 @@ def part_entry_points(ctx, tie=None):
                                      "len*1000+sum (DynArray), len(label)*1000+weight (dynamic struct), ...; supplied and default values differ"},
                             key=f"entry-points:{'venom' if cfg.venom else 'legacy'}")
                         return n
-                    # every variant is non-payable: any non-zero value (both parities, boundary-biased) must revert
+                    # any non-zero value (both parities, boundary-biased): a variant that is not @payable (undecorated,
+                    # @nonpayable, @view, @pure -- from the decorator text) must revert, a @payable one answers as without value
                     for v in (2, vrnd.choice(fam) & ~1 or 4, vrnd.choice(fam)):
                         P.fund(ch, addr, v)
                         r = ch.call(addr, data, value=v)
                         n += 1
                         nval += 1
-                        if r.ok or P.halted(r):
-                            got = [int.from_bytes(r.out[i:i + 32], "big") for i in range(0, len(r.out), 32)] if r.ok else str(r.logs)
+                        mutcov.add((cfg.venom, f.mut))
+                        if P.halted(r) or (r.ok != f.payable) or (r.ok and r.out != want):
+                            got = [int.from_bytes(r.out[i:i + 32], "big") for i in range(0, len(r.out), 32)] if r.ok else \
+                                (str(r.logs) if P.halted(r) else "revert")
                             ctx.violation(
-                                "failing-input", "non-payable entry point (default-argument variant) accepts a call carrying value",
+                                "failing-input", "entry point (default-argument variant) called with value does not follow its mutability decorator",
                                 {"source": src, "config": cfg.name, "function": f.source(base + j), "called_signature": sig,
-                                 "calldata": data.hex(), "value": v, "expected": "revert", "observed": ["ok", got]},
+                                 "decorator": "@" + (f.mut or "<none>"),
+                                 "calldata": data.hex(), "value": v, "expected": "enters the function" if f.payable else "revert",
+                                 "observed": ["ok", got] if r.ok else got},
                                 key=f"entry-points:value:{'venom' if cfg.venom else 'legacy'}")
                             return n
                     # calldata shorter than the head of the argument tuple (selector intact) must revert
@@ -665,6 +748,7 @@ def part_entry_points(ctx, tie=None):
                             return n
     ctx.corr["entry_point_truncated_calls"] = ntrunc
     ctx.corr["entry_point_value_calls"] = nval
+    ctx.corr["entry_point_value_decorators"] = sorted({"@" + (m or "undecorated") for _v, m in mutcov})
     ctx.corr["entry_point_calls"] = n
     ctx.corr["entry_point_shapes"] = len(shapes)
     return n
@@ -675,6 +759,15 @@ def replay(ctx):
     import json
     rec = json.load(open(ctx.replay))
     d = rec.get("detail", {})
+    if "source" in d and "creation_value" in d:
+        cfg = next((c for c in strategy_configs("thorough") if c.name == d["config"]), None)
+        out = configs.compile_src(d["source"], cfg, formats=("bytecode",))
+        a2 = evm.Chain(cfg.evm).deploy(bytes.fromhex(out["bytecode"][2:]), value=d["creation_value"])
+        obs = "created" if a2 is not None else "creation reverts"
+        ctx.log(f"replay: expected {d['expected']} observed {obs}")
+        if obs != d["expected"]:
+            ctx.violation("failing-input", "constructor payability (replay)", d, key=rec.get("key"))
+        return
     if "source" not in d or "calldata" not in d:
         ctx.log("replay: nothing executable in this record (kind=%s)" % rec.get("kind"))
         return
@@ -685,8 +778,9 @@ def replay(ctx):
     P.fund(ch, addr, d["value"])
     r = ch.call(addr, bytes.fromhex(d["calldata"]), value=d["value"])
     o = G.observe(r, None)
-    obs = [o[0]] + ([o[1].hex()] if o[0] == "enter" else list(o[1:]))
-    exp = [d["expected"][0]] + ([d["expected"][2]] if d["expected"][0] == "enter" else [])
+    obs = [o[0]] + ([o[1].hex()] if o[0] in ("enter", "default") else list(o[1:]))
+    exp = [d["expected"][0]] + ([d["expected"][2]] if d["expected"][0] == "enter" else
+                                [d["expected"][1]] if d["expected"][0] == "default" else [])
     ctx.log(f"replay: expected {d['expected']} observed {obs}")
     if obs != exp:
         ctx.violation("failing-input", "emitted dispatcher disagrees with spec_dispatch (replay)", d, key=rec.get("key"))
